@@ -82,6 +82,8 @@ class Body:
                 self.names.setdefault(d['place']['local'], d['name'])
         self.arg_names = {i: self.names.get(i, 'arg%d' % i) for i in range(1, self.argc + 1)}
         self._defs = None
+        self._pos = None
+        self._rd = {}
         self._shallow = False
         self._dom = None
         self._pdom = None
@@ -322,6 +324,7 @@ class Body:
         if self._defs is not None:
             return self._defs
         d = collections.defaultdict(list)
+        self._defpos = {}
         for i in self.normal_blocks:
             bl = self.blocks[i]
             for n, s in enumerate(bl['stmts']):
@@ -329,24 +332,103 @@ class Body:
                     continue
                 if not s['lhs']['proj']:
                     d[s['lhs']['local']].append((i, 'stmt', s))
+                    self._defpos[id(s)] = (i, n)
                 else:
                     d[('partial', s['lhs']['local'])].append((i, 'stmt', s))
             t = bl['term']
             if t['k'] == 'call':
                 if not t['dest']['proj']:
                     d[t['dest']['local']].append((i, 'call', t))
+                    self._defpos[id(t)] = (i, len(bl['stmts']))
                 else:
                     d[('partial', t['dest']['local'])].append((i, 'call', t))
         self._defs = d
         return d
 
+    def positions(self):
+        """id(operand dict) -> (block, statement index) of the statement / terminator that uses it"""
+        if self._pos is not None:
+            return self._pos
+        pos = {}
+        for i in self.normal_blocks:
+            bl = self.blocks[i]
+            for n, s in enumerate(bl['stmts']):
+                if s['k'] == 'assign':
+                    for o in s['ops']:
+                        pos[id(o)] = (i, n)
+            t = bl['term']
+            n = len(bl['stmts'])
+            for o in t.get('args', []) or []:
+                pos[id(o)] = (i, n)
+            for key in ('discr', 'cond', 'fop'):
+                if isinstance(t.get(key), dict):
+                    pos[id(t[key])] = (i, n)
+            for o in t.get('ops', []) or []:
+                pos[id(o)] = (i, n)
+        self._pos = pos
+        return pos
+
+    def reaching(self, l, at):
+        """definitions of local l (entries of defs()[l], plus 'entry' for arguments) that reach program point `at`"""
+        ds = self.defs().get(l, [])
+        self.defs()
+        bid, idx = at
+        # last definition inside the block before idx
+        best = None
+        for d in ds:
+            dp = self._defpos[id(d[2])]
+            if dp[0] == bid and d[1] == 'stmt' and dp[1] < idx:
+                if best is None or dp[1] > self._defpos[id(best[2])][1]:
+                    best = d
+        if best is not None:
+            return [best]
+        IN = self._rd_in(l)
+        return IN.get(bid, [])
+
+    def _rd_in(self, l):
+        if l in self._rd:
+            return self._rd[l]
+        ds = self.defs().get(l, [])
+        last = {}
+        for d in ds:
+            dp = self._defpos[id(d[2])]
+            if d[0] not in last or dp[1] >= self._defpos[id(last[d[0]][2])][1]:
+                last[d[0]] = d
+        ids = sorted(self.reachable_blocks())
+        P = self.preds()
+        ENTRY = (0, 'entry', None)
+        IN = {i: [] for i in ids}
+        OUT = {i: [] for i in ids}
+        IN[0] = [ENTRY] if 1 <= l <= self.argc else []
+        ch = True
+        key = lambda d: id(d[2]) if d[2] is not None else 0
+        while ch:
+            ch = False
+            for i in ids:
+                if i != 0:
+                    acc = {}
+                    for p in P[i]:
+                        if p in OUT:
+                            for d in OUT[p]:
+                                acc[key(d)] = d
+                    new_in = list(acc.values())
+                else:
+                    new_in = IN[0]
+                new_out = [last[i]] if i in last else new_in
+                if len(new_in) != len(IN[i]) or len(new_out) != len(OUT[i]) or set(map(key, new_out)) != set(map(key, OUT[i])):
+                    IN[i], OUT[i] = new_in, new_out
+                    ch = True
+        self._rd[l] = IN
+        return IN
+
     # ---------------------------------------------------------------- value DAG (E6)
-    def expr(self, operand, depth=0, seen=None):
-        """Gated use-def expression of an operand. Returns nested tuples:
+    def expr(self, operand, depth=0, seen=None, at=None):
+        """Gated use-def expression of an operand, flow-sensitive: a multiply-assigned local denotes the
+        definitions that *reach* the statement using the operand. Returns nested tuples:
         ('const', ty, val, text) ('arg', idx, name) ('call', callee_path, [args], term)
         ('binop', op, a, b) ('unop', op, a) ('cast', kind, to, a) ('field', base, name)
         ('deref', base) ('ref', base) ('aggr', adt, [fields], names) ('discr', base)
-        ('index', base, idx) ('downcast', base, variant) ('phi', local, [exprs]) ('top', why)
+        ('index', base, idx) ('downcast', base, variant) ('phi', local, [exprs], name, [blocks], body, subst) ('top', why)
         """
         if 'const' in operand:
             c = operand['const']
@@ -357,55 +439,77 @@ class Body:
         p = opplace(operand)
         if p is None:
             return ('top', 'operand')
-        return self.place_expr(p, depth, seen)
+        if at is None:
+            at = self.positions().get(id(operand))
+        return self.place_expr(p, depth, seen, at)
 
-    def place_expr(self, p, depth=0, seen=None):
-        e = self.local_expr(p['local'], depth, seen)
+    def place_expr(self, p, depth=0, seen=None, at=None):
+        e = self.local_expr(p['local'], depth, seen, at)
         for pe in p['proj']:
             if pe == 'deref':
                 e = ('deref', e)
             elif isinstance(pe, dict) and 'field' in pe:
                 e = ('field', e, pe['field'].rsplit('.', 1)[-1], pe['field'])
             elif isinstance(pe, dict) and 'index' in pe:
-                e = ('index', e, self.local_expr(pe['index'], depth + 1, seen))
+                e = ('index', e, self.local_expr(pe['index'], depth + 1, seen, at))
             elif isinstance(pe, dict) and 'downcast' in pe:
                 e = ('downcast', e, pe['downcast'])
             elif isinstance(pe, dict) and 'cidx' in pe:
                 e = ('index', e, ('const', 'usize', pe['cidx'], str(pe['cidx'])))
             else:
                 e = ('proj?', e)
+            e = simplify(e)
         return simplify(e)
 
-    def local_expr(self, l, depth=0, seen=None):
+    def local_expr(self, l, depth=0, seen=None, at=None):
         if seen is None:
             seen = frozenset()
-        if 1 <= l <= self.argc:
-            # arguments may be re-assigned, but that is rare; treat re-assigned args as phi
-            if not self.defs().get(l):
-                return ('arg', l, self.arg_names.get(l))
+        alld = self.defs().get(l, [])
+        if 1 <= l <= self.argc and not alld:
+            return ('arg', l, self.arg_names.get(l))
         if depth > 40:
             return ('top', 'depth')
         if self._shallow and (depth > 0 or self._shallow == 'all') and l in self.names:
             return ('var', l, self.names[l])
-        if l in seen:
-            return ('loop', l, self.names.get(l))
-        ds = self.defs().get(l, [])
-        if not ds:
+        if not alld:
             if l == 0:
                 return ('top', 'retslot')
             return ('undef', l, self.names.get(l))
-        seen2 = seen | {l}
+        if at is not None and (len(alld) > 1 or 1 <= l <= self.argc):
+            ds = self.reaching(l, at)
+        else:
+            ds = list(alld)
+            if 1 <= l <= self.argc:
+                ds.append((0, 'entry', None))
         outs = []
         bids = []
         for (bid, kind, x) in ds:
-            outs.append(self.def_expr(bid, kind, x, depth + 1, seen2))
+            if kind == 'entry':
+                outs.append(('arg', l, self.arg_names.get(l)))
+                bids.append(0)
+                continue
+            key = (l, id(x))
+            if key in seen:
+                outs.append(('loop', l, self.names.get(l)))
+                bids.append(bid)
+                continue
+            outs.append(self.def_expr(bid, kind, x, depth + 1, seen | {key}))
             bids.append(bid)
-        if 1 <= l <= self.argc:
-            outs.append(('arg', l, self.arg_names.get(l)))
-            bids.append(0)
+        if not outs:
+            return ('undef', l, self.names.get(l))
         if len(outs) == 1:
             return outs[0]
         return ('phi', l, outs, self.names.get(l), bids, self.path, None)
+
+    def ret_expr(self):
+        """value of the return slot at the Return terminator(s)"""
+        rets = [i for i in self.normal_blocks if self.blocks[i]['term']['k'] == 'return']
+        if not rets:
+            return ('top', 'noreturn')
+        outs = [self.local_expr(0, 0, None, (r, len(self.blocks[r]['stmts']))) for r in rets]
+        if len(outs) == 1:
+            return outs[0]
+        return ('phi', 0, outs, None, rets, self.path, None)
 
     def def_expr(self, bid, kind, x, depth, seen):
         if kind == 'call':
